@@ -43,6 +43,27 @@ pub mod executor {
         }
     }
 
+    /// FLAG C15-R1: the Err arm does nothing at all
+    pub fn if_let_ok(x: i32) -> i32 {
+        let mut out = 0;
+        if let Ok(v) = fallible(x) {
+            out = v;
+        }
+        out
+    }
+
+    /// ok: the Err arm returns early inside a loop
+    pub fn loop_matched(n: i32) -> Result<i32, Error> {
+        let mut s = 0;
+        for i in 0..n {
+            match fallible(i) {
+                Ok(v) => s += v,
+                Err(e) => return Err(e),
+            }
+        }
+        Ok(s)
+    }
+
     /// ok: is_err used as a condition
     pub fn tested(x: i32) -> bool {
         if fallible(x).is_err() { return false; }
